@@ -134,7 +134,7 @@ var unsupportedTypes = []string{"chan:int", "func", "complex64", "complex128", "
 
 // menagerie members a random type may mention (recursive N only rarely: every fold of it
 // costs a child process)
-var menagerieCommon = []string{"FV", "FP", "FS", "ZV", "ZP", "ZInt", "ZStr", "TimeLike", "NBool", "NStr", "NInt", "NU8", "NF32",
+var menagerieCommon = []string{"FV", "FP", "FS", "FInts", "FMap", "ZV", "ZP", "ZInt", "ZStr", "TimeLike", "NBool", "NStr", "NInt", "NU8", "NF32",
 	"NInts", "NBytes", "NStrs", "NAnys", "NArr", "NMap", "NMapAny", "NPtr", "Unexp", "Inner", "EmbInline", "EmbPlain", "EmbPtr",
 	"EmbPtrPlain", "EmbUnexp", "EmbZ", "EmbF", "UF", "UO", "UD", "Ifc", "Mixed", "NI",
 	"ZInts", "ZMapP", "ZArr", "N", "Tree", "MA", "MB", "NIn", "NII", "NO", "L", "MM"}
@@ -327,6 +327,10 @@ var foldKinds = []kindCase{
 	{"*@FP", []string{"nil", "&(1)"}},
 	{"**@FP", []string{"nil", "&nil", "&&(1)"}},
 	{"@FS", []string{"0", "3"}},
+	{"@FInts", []string{"nil", "[]", "[1,2,3]"}},
+	{"*@FInts", []string{"nil", "&[1]"}},
+	{"@FMap", []string{"nil", "{}", "{s:6b=1,s:6c=2}"}},
+	{"*@FMap", []string{"nil", "&{s:6b=1}"}},
 	{"@FOpen", []string{"(1)"}},
 	{"@EmbF", []string{"((1,s:78),2)"}},
 	{"@UF", []string{"(1)"}},
@@ -786,6 +790,7 @@ func foldRegressionCases(r *Rand, tier string, emit func(t, v string)) {
 	// nil pointers to Folders (value and pointer receiver) and to user-folded types
 	for _, kc := range []kindCase{
 		{"@FV", []string{"(1,s:78)"}}, {"@FS", []string{"3"}}, {"@FOpen", []string{"(1)"}}, {"@EmbF", []string{"((1,s:78),2)"}},
+		{"@FInts", []string{"[1,2,3]", "nil"}}, {"@FMap", []string{"{s:6b=1}", "nil"}},
 		{"@FP", []string{"(1)"}}, {"@UF", []string{"(1)"}}, {"@UO", []string{"(1,s:65)"}}, {"@UD", []string{"5"}},
 	} {
 		positions(kc.typ, kc.vals, false)
